@@ -22,6 +22,10 @@ type LoopCut struct {
 	inv     string
 	post    string
 	variant string
+	relpre  []string // Int/scalar functions evaluated on the arbitrary pre-iteration state; bound to predicate parameters pre0__, pre1__, ...
+	rel     string   // relation between the pre-iteration snapshots and the state at each back edge
+	postret bool     // evaluate post at the function's return (the code after the loop runs) instead of at the loop exit
+	pre     []Value
 	fn      *ssa.Function
 	done    bool
 }
@@ -32,7 +36,10 @@ func parseLoopCut(r *ObRun) *LoopCut {
 		return nil
 	}
 	i := strings.LastIndex(cs, ":")
-	lc := &LoopCut{fnName: cs[:i], loopIdx: atoiDef(cs[i+1:], 0), inv: r.attr("inv", ""), post: r.attr("post", ""), variant: r.attr("variant", "")}
+	lc := &LoopCut{fnName: cs[:i], loopIdx: atoiDef(cs[i+1:], 0), inv: r.attr("inv", ""), post: r.attr("post", ""), variant: r.attr("variant", ""), rel: r.attr("rel", ""), postret: r.attr("postret", "") != ""}
+	if rp := r.attr("relpre", ""); rp != "" {
+		lc.relpre = strings.Split(rp, "+")
+	}
 	fn, ok := r.Ld.funcs[lc.fnName]
 	if !ok {
 		fail("cut: function %q not found", lc.fnName)
@@ -55,19 +62,28 @@ func (c *Ctx) bindArgs(pred *ssa.Function, fn *ssa.Function, head *ssa.BasicBloc
 		name := prm.Name()
 		var v Value
 		found := false
-		for _, fp := range fn.Params {
-			if fp.Name() == name {
-				v, found = p.env[fp], true
+		if strings.HasPrefix(name, "pre") && strings.HasSuffix(name, "__") {
+			k := atoiDef(name[3:len(name)-2], -1)
+			if k < 0 || k >= len(c.cutSpec.pre) {
+				fail("cut: predicate %s: no pre-iteration snapshot %q", pred.Name(), name)
+			}
+			args = append(args, c.cutSpec.pre[k])
+			continue
+		}
+		// a parameter that the loop modifies is a phi at the header: the phi is the current value
+		for _, in := range head.Instrs {
+			phi, ok := in.(*ssa.Phi)
+			if !ok {
+				break
+			}
+			if phi.Comment == name {
+				v, found = p.env[phi], true
 			}
 		}
 		if !found {
-			for _, in := range head.Instrs {
-				phi, ok := in.(*ssa.Phi)
-				if !ok {
-					break
-				}
-				if phi.Comment == name {
-					v, found = p.env[phi], true
+			for _, fp := range fn.Params {
+				if fp.Name() == name {
+					v, found = p.env[fp], true
 				}
 			}
 		}
@@ -241,6 +257,10 @@ func (c *Ctx) execCut(fn *ssa.Function, args []Value, bind []Value, st *State) [
 		if spec.variant != "" {
 			v0 = termOf(c.evalPred(spec.variant, fn, H, p))
 		}
+		spec.pre = nil
+		for _, rp := range spec.relpre {
+			spec.pre = append(spec.pre, c.evalPred(rp, fn, H, p))
+		}
 		pre := make(Mem, len(p.st.mem))
 		for k, v := range p.st.mem {
 			pre[k] = v
@@ -288,13 +308,41 @@ func (c *Ctx) execCut(fn *ssa.Function, args []Value, bind []Value, st *State) [
 		}
 		for i, q := range backs {
 			c.addOb(q.st, "assert", fmt.Sprintf("loop invariant preserved by one iteration (%s, back edge %d)", spec.inv, i), c.posOf(H.Instrs[0]), termOf(c.evalPred(spec.inv, fn, H, q)))
+			if spec.rel != "" {
+				c.addOb(q.st, "assert", fmt.Sprintf("one iteration relates the state before and after as stated (%s, back edge %d)", spec.rel, i), c.posOf(H.Instrs[0]), termOf(c.evalPred(spec.rel, fn, H, q)))
+			}
 			if v0 != nil {
 				v1 := termOf(c.evalPred(spec.variant, fn, H, q))
 				c.addOb(q.st, "assert", fmt.Sprintf("termination measure decreases and stays non-negative (%s, back edge %d)", spec.variant, i), c.posOf(H.Instrs[0]), And(ILt(v1, v0), ILe(IntI(0), v1)))
 			}
 			c.obs = append(c.obs, &Oblig{Name: fmt.Sprintf("reach: loop back edge %d", i), Kind: "reach", Hyp: q.st.pc.term(), Goal: FalseT})
 		}
-		if spec.post != "" {
+		if spec.post != "" && spec.postret {
+			// run the code after the loop to the function's return and evaluate the post-condition there
+			nret := len(fr2.returns)
+			for pos, ps := range fr2.pending {
+				if pos == latch {
+					delete(fr2.pending, pos)
+				} else {
+					_ = ps
+				}
+			}
+			c.runRange(fr2, last+1, 1<<30)
+			var rets []*Path
+			for i, rp := range fr2.returns {
+				if i >= nret {
+					rp.env[nil] = fr2.retVals[i]
+				}
+				rets = append(rets, rp)
+			}
+			if len(rets) == 0 {
+				fail("cut: no path returns from %s after the loop", fn)
+			}
+			for i, q := range rets {
+				c.addOb(q.st, "assert", fmt.Sprintf("post-condition at return (%s, return %d)", spec.post, i), c.posOf(H.Instrs[0]), termOf(c.evalPred(spec.post, fn, H, q)))
+				c.obs = append(c.obs, &Oblig{Name: fmt.Sprintf("reach: return after the loop %d", i), Kind: "reach", Hyp: q.st.pc.term(), Goal: FalseT})
+			}
+		} else if spec.post != "" {
 			for i, q := range exits {
 				c.addOb(q.st, "assert", fmt.Sprintf("exit condition (%s, exit %d)", spec.post, i), c.posOf(H.Instrs[0]), termOf(c.evalPred(spec.post, fn, H, q)))
 				c.obs = append(c.obs, &Oblig{Name: fmt.Sprintf("reach: loop exit %d", i), Kind: "reach", Hyp: q.st.pc.term(), Goal: FalseT})
